@@ -247,6 +247,56 @@ def file_events(v, h, tier, rnd):
             if r.get("err") or r.get("panic"):
                 v.report("c14:scan-failed:long:U=%d:%s" % (U, r.get("op")), "%s on payloads of %s bytes (page size %d) failed: err=%r panic=%r" %
                          (r.get("op"), lens, U, r.get("err"), r.get("panic")), lambda: save_db("C14", path, "long-U%d" % U))
+    # record headers longer than 127 bytes (the header-size varint takes two bytes) and schema rows on page 1 that are
+    # near / beyond the local-payload limit of that page (its usable size is the same as everywhere: U, not U - 100)
+    import sqlite3
+    for U in ((512, 4096) if tier == "quick" else (512, 1024, 4096, 65536)):
+        path = os.path.join(d, "wide%d.db" % U)
+        con = gen.connect(path, U)
+        specs = {}
+        for ncol in (100, 126, 127, 128, 140, 300):
+            cols = ["c%d" % i for i in range(ncol)]
+            con.execute("CREATE TABLE wide%d(%s)" % (ncol, ", ".join(cols)))
+            for r_ in range(3):
+                con.execute("INSERT INTO wide%d VALUES(%s)" % (ncol, ",".join("?" * ncol)), [(i * 7 + r_) if i % 3 else "t%d_%d" % (i, r_) for i in range(ncol)])
+            specs["wide%d" % ncol] = cols
+        con.execute("CREATE TABLE longtext(%s)" % ", ".join("t%d" % i for i in range(70)))
+        con.execute("INSERT INTO longtext VALUES(%s)" % ",".join("?" * 70), ["x" * (60 + i) for i in range(70)])
+        specs["longtext"] = ["t%d" % i for i in range(70)]
+        con.commit()
+        con.close()
+        # further files with ONE object each (sqlite_master stays one leaf on page 1) whose definition has a length around U
+        files = [(path, specs)]
+        for k, target in enumerate([U - 150, U - 140, U - 135, U - 130, U - 120, U - 100, U - 36, U + 50, 2 * U + 10] if U <= 4096 else [U - 135, U + 50]):
+            path2 = os.path.join(d, "ddl%d_%d.db" % (U, k))
+            con = gen.connect(path2, U)
+            stem = "CREATE TABLE d%d(a, b" % k
+            colname = "p" + "q" * max(1, target - len(stem) - 8)
+            con.execute("%s, %s)" % (stem, colname))
+            con.execute("INSERT INTO d%d VALUES(1, 2, 3)" % k)
+            con.commit()
+            con.close()
+            files.append((path2, {"d%d" % k: ["a", "b", colname]}))
+        for pth, sp in files:
+            req, out = os.path.join(d, "wreq%d.ndjson" % U), os.path.join(d, "wres%d.ndjson" % U)
+            names = sorted(sp)
+            common.write_ndjson(req, [{"db": pth, "mode": "keep", "ops": [{"op": "tables", "id": 0}] + [{"op": "select_all", "id": 1 + i, "table": t_, "cols": sp[t_]} for i, t_ in enumerate(names)]}])
+            rc, txt, _ = common.run([h, "ops", req, out], timeout=600)
+            if rc != 0:
+                raise common.harness_failure(txt)
+            res = {r_["id"]: r_ for r_ in common.read_ndjson(out)}
+            for i, t_ in enumerate(names):
+                r_ = res[1 + i]
+                want = gen.oracle_rows(pth, "SELECT %s FROM %s" % (", ".join(sp[t_]), t_))
+                got = [tuple(values.from_jval(j) for j in row) for row in r_.get("rows") or []]
+                if r_.get("err") or r_.get("panic") or sorted(got) != sorted(want):
+                    v.report("c14:wide-or-long-definition:U=%d:%s" % (U, "wide" if pth == path else "ddl"),
+                             "table %s (%d columns, definition of %d bytes, page size %d): err=%r panic=%r, %d rows equal SQLite's: %s" %
+                             (t_, len(sp[t_]), len(t_) + sum(len(c_) + 2 for c_ in sp[t_]) + 16, U, r_.get("err"), r_.get("panic"), len(got), sorted(got) == sorted(want)),
+                             lambda pth=pth: save_db("C14", pth, "wide-U%d" % U))
+                v.nontrivial(("wide", U, t_))
+            if res[0].get("err"):
+                v.report("c14:wide-or-long-definition:U=%d:tables" % U, "Tables() on %s failed: %r" % (pth, res[0].get("err")), lambda pth=pth: save_db("C14", pth, "wide-U%d" % U))
     return events, info
 
 
